@@ -282,12 +282,86 @@ impl Prop for Histories {
     }
 }
 
-/// The brief's D1 shape as a fixed regression history (also reachable by the generator).
+
+// ------------------------------------------- public entry point, default worker policy
+
+/// The public `Searcher::analyze` decides the worker count itself (one below iteration depth
+/// 3, then up to 32 on rayon's global pool, really parallel). The hook path never takes that
+/// branch, so a few searches per run go through it: depth 4-5, default 1 GiB memory or a
+/// small one handed in, every reported line checked for legality.
+#[derive(Debug, Clone, Serialize, Deserialize)]
+pub struct PublicCase {
+    pub source: Source,
+    pub depth: u8,
+    pub seed: u64,
+    pub fresh_memory: bool,
+    pub hasher_seed: u64,
+}
+
+pub struct PublicMultiWorker;
+
+impl Prop for PublicMultiWorker {
+    type Case = PublicCase;
+    fn name(&self) -> &'static str {
+        "public_entry_multiworker"
+    }
+    fn parallelism(&self, _: &Ctx) -> usize {
+        3
+    }
+    fn max_shrink_iters(&self) -> u32 {
+        20
+    }
+    fn strategy(&self, _: &Ctx) -> BoxedStrategy<PublicCase> {
+        (sparse_source(), 4u8..=5, any::<u64>(), proptest::bool::weighted(0.25), any::<u64>())
+            .prop_map(|(source, depth, seed, fresh_memory, hasher_seed)| PublicCase { source, depth, seed, fresh_memory, hasher_seed })
+            .boxed()
+    }
+    fn test(&self, _: &Ctx, case: &PublicCase, loc: &mut Local) -> Result<(), String> {
+        use weechess_engine::searcher::{Searcher, StatusEvent};
+        let Some(pos) = source_pos(&case.source) else { return Ok(()) };
+        if !pos.has_legal_move() || pos.men() > 12 {
+            return Ok(());
+        }
+        let artifact = if case.fresh_memory { None } else { Some(search::new_artifact(case.hasher_seed, Geometry { tables: 8, buckets: 1024 })) };
+        let state = crate::glue::state_direct(&pos);
+        let (handle, tx, rx) = Searcher::new().analyze(state, case.seed, weechess_engine::eval::Evaluator::default(), Some(case.depth as usize), artifact);
+        let what = format!("Searcher::analyze('{}', depth {}, seed {})", pos.fen(), case.depth, case.seed);
+        let mut lines = 0;
+        loop {
+            match rx.recv_timeout(std::time::Duration::from_secs(300)) {
+                Ok(StatusEvent::BestMove { line, .. }) => {
+                    let l: Vec<crate::oracle::rules::Mv> = line.iter().map(crate::glue::read_move).collect();
+                    search::check_line(&pos, &l).map_err(|e| format!("{}: {}", what, e))?;
+                    lines += 1;
+                }
+                Ok(_) => {}
+                Err(std::sync::mpsc::RecvTimeoutError::Disconnected) => break,
+                Err(std::sync::mpsc::RecvTimeoutError::Timeout) => return Err(format!("{} sent no event for 300 s", what)),
+            }
+        }
+        drop(tx);
+        if handle.join().is_err() {
+            return Err(format!("{} panicked", what));
+        }
+        if lines == 0 {
+            return Err(format!("{} ended without reporting any best line", what));
+        }
+        loc.eval();
+        loc.nontrivial(&(pos.fen4(), case.depth, case.seed, "public"));
+        loc.class(if case.fresh_memory { "fresh_1GiB_memory" } else { "small_memory_handed_in" });
+        loc.sample(|| json!({"fen": pos.fen(), "depth": case.depth, "seed": case.seed, "reported_lines": lines}));
+        Ok(())
+    }
+}
+
 pub fn plan(ctx: &Ctx) -> Plan {
     let t = ctx.tier;
     let _ = (Col::W, Kind::K, pick_index(0, 1));
     Plan {
-        props: vec![(Box::new(Histories { max_depth: 5 }), t.pick(5_000, 200_000))],
+        props: vec![
+            (Box::new(Histories { max_depth: 5 }), t.pick(5_000, 200_000)),
+            (Box::new(PublicMultiWorker), t.pick(80, 3_000)),
+        ],
         rule: "a case is a history of 1-6 searches sharing one search memory of generated geometry (8x1024 down to 1x1 \
                buckets): (i) the same placement under different castling-right subsets / with and without its \
                en-passant target, (ii) a game (search, play the reported move, oracle-random reply, search again), (iii) \
@@ -297,7 +371,9 @@ pub fn plan(ctx: &Ctx) -> Plan {
                {0,1,small,9999,10000,10001,20000,large}. Oracle: no panic (the repository's own debug assertions are \
                live), every move of every reported line legal in the position reached so far (attribute-tuple equality \
                with the rules oracle), and at least one report (also when the Stop precedes the first node) unless the table is more \
-               than 25% full. Non-trivial = distinct histories that reuse the memory across equal \
+               than 25% full. A second part sends depth 4-5 searches through the public Searcher::analyze, \
+               whose own worker policy (up to 32 really parallel workers from the fourth iteration) the hook path \
+               never takes; same legality oracle. Non-trivial = distinct histories that reuse the memory across equal \
                placements with different rights/ep, or ran >= 2 workers with >= 10 baton switches, or were cancelled \
                mid-search and still reported.",
         assumptions: &[
